@@ -17,13 +17,14 @@ def counts(out):
 
 def main():
     prop = sys.argv[1]
+    offset = int(sys.argv[2]) if len(sys.argv) > 2 else 0
     wt = '/tmp/wt/' + prop
     outdir = os.path.join(wt, '_out')
     for k in sorted(os.listdir(outdir)):
         d = os.path.join(outdir, k)
         if not os.path.exists(os.path.join(d, 'patch.diff')):
             continue
-        dest = '/verif/seeded/%s-%s' % (prop, k)
+        dest = '/verif/seeded/%s-%s' % (prop, int(k) + offset if k.isdigit() else k)
         if os.path.exists(dest):
             print(dest, 'already imported'); continue
         meta = json.load(open(os.path.join(d, 'meta.json')))
@@ -40,11 +41,25 @@ def main():
         suite = 'passed %d failed %d rc %d' % (ok, bad, rc)
         if rc != 0 or bad or ok < 190:
             print(k, 'suite not green with change:', suite); sh('git checkout -- .', wt); continue
-        shutil.copy(os.path.join(d, demo), os.path.join(wt, 'tests', 'seeded_demo.rs'))
-        rc1, o1 = sh('cargo test --offline --test seeded_demo 2>&1', wt)
-        sh('git checkout -- src', wt)
-        rc2, o2 = sh('cargo test --offline --test seeded_demo 2>&1', wt)
-        os.remove(os.path.join(wt, 'tests', 'seeded_demo.rs'))
+        placement = str(meta.get('demo_placement', ''))
+        msrc = re.search(r'src/\w+\.rs', placement)
+        if 'unit' in demo and msrc:
+            # a #[cfg(test)] module to be appended to a source file (private items)
+            target = os.path.join(wt, msrc.group(0))
+            patched = open(target).read()
+            open(target, 'w').write(patched + '\n' + open(os.path.join(d, demo)).read())
+            rc1, o1 = sh('cargo test --offline --lib 2>&1', wt)
+            sh('git checkout -- src', wt)
+            clean = open(target).read()
+            open(target, 'w').write(clean + '\n' + open(os.path.join(d, demo)).read())
+            rc2, o2 = sh('cargo test --offline --lib 2>&1', wt)
+            sh('git checkout -- src', wt)
+        else:
+            shutil.copy(os.path.join(d, demo), os.path.join(wt, 'tests', 'seeded_demo.rs'))
+            rc1, o1 = sh('cargo test --offline --test seeded_demo 2>&1', wt)
+            sh('git checkout -- src', wt)
+            rc2, o2 = sh('cargo test --offline --test seeded_demo 2>&1', wt)
+            os.remove(os.path.join(wt, 'tests', 'seeded_demo.rs'))
         sh('git checkout -- . && git clean -fdq -e _out', wt)
         if rc1 == 0 or rc2 != 0:
             print(k, 'demo does not discriminate: with change rc=%d, without rc=%d' % (rc1, rc2)); continue
@@ -54,7 +69,7 @@ def main():
         fail_line = [l for l in o1.split('\n') if 'panicked' in l or 'assertion' in l][:2]
         m2 = dict(property=prop, properties=[prop], expect='violation', origin='independent sub-agent (given only the property text and a scratch worktree)',
                   summary=meta.get('summary'), needs_to_manifest=meta.get('needs_to_manifest'), files_touched=meta.get('files_touched'),
-                  demo_placement='tests/seeded_demo.rs',
+                  demo_placement=(placement or 'tests/seeded_demo.rs'),
                   confirmed_by_me=dict(worktree=wt, base=subprocess.run('git rev-parse HEAD', shell=True, cwd=wt, capture_output=True, text=True).stdout.strip(),
                                        commands=['git apply patch.diff', 'cargo test --offline  -> ' + suite, 'cargo test --offline --test seeded_demo (with change) -> FAILS: ' + ' | '.join(fail_line)[:300],
                                                  'git checkout -- src; cargo test --offline --test seeded_demo (without change) -> passes']))
